@@ -78,7 +78,93 @@ def equiv_names(repo, cls, name):
     return out
 
 
+def leaf_rules(repo, res):
+    """PB-LEAF: the leaf factories of the reader, evaluated: an exact number is handed on as it stands in the message,
+    an interval is built from the start and end of the message, whatever `is_angle` says (the kind of interval, not
+    its numbers, depends on it).  Anything else — a value normalised, rounded or wrapped on reading — is not the value
+    that was written."""
+    from ..strdom import Ctor, Ev, Obj, PyFunc, Str, Sym, Undecided, _Raise, show
+
+    RP_ = "commonroad/common/reader/file_reader_protobuf.py"
+    for cname, kinds in (("IntegerExactOrIntervalFactory", [()]), ("FloatExactOrIntervalFactory", [(), (False,), (True,)]), ("IntegerIntervalFactory", [()]), ("FloatIntervalFactory", [(), (False,), (True,)])):
+        cls = repo.cls(RP_, cname)
+        fn = cls.methods.get("create_from_message")
+        if fn is None:
+            raise AnalysisError("%s.create_from_message missing" % cname)
+        qn = "%s.create_from_message" % cname
+        for extra in kinds:
+            for present in (("exact", "interval") if "ExactOr" in cname else ("interval",)):
+                st, en, ex = Sym("start", "num"), Sym("end", "num"), Sym("exact", "num")
+                iv = Obj(None, {"start": st, "end": en}, closed=True, label="interval message")
+                if "ExactOr" in cname:
+                    msg = Obj(None, {"exact": ex, "interval": iv, "HasField": PyFunc(lambda a, k, present=present: isinstance(a[0], Str) and a[0].is_lit() and a[0].text() == present, "HasField"), "WhichOneof": PyFunc(lambda a, k, present=present: Str.lit(present), "WhichOneof")}, closed=True, label="message")
+                else:
+                    msg = iv
+                ev = Ev(repo, opaque_calls={"make_valid_orientation", "make_valid_orientation_interval"})
+                ev.pure_modules = {"np", "numpy", "math"}
+                label = "%s%s" % ("exact value" if present == "exact" else "interval", "" if not extra else (", angle" if extra[0] else ", not an angle"))
+                bad = None
+                try:
+                    r = ev.call_fn(ev.bind(fn, cls, None, via_class=None), [msg] + list(extra), {}, fn)
+                    if present == "exact":
+                        if r is not ex:
+                            bad = "hands on %s, the message holds exact" % show(r)
+                    else:
+                        a = list(r.args.values()) if isinstance(r, Ctor) else None
+                        want = "AngleInterval" if extra == (True,) else "Interval"
+                        if not (isinstance(r, Ctor) and r.name in ("Interval", "AngleInterval") and len(a) == 2 and a[0] is st and a[1] is en):
+                            bad = "hands on %s, the message holds the interval (start, end)" % show(r)
+                        elif r.name != want:
+                            bad = "builds an %s for a value that is %s" % (r.name, "an angle" if extra == (True,) else "not an angle")
+                except _Raise as x:
+                    bad = "raises %s" % x.what
+                except Undecided as x:
+                    raise AnalysisError("%s [%s]: %s" % (qn, label, x))
+                res.check("PB-LEAF", "%s [%s]: the numbers of the message, unchanged" % (qn, label), bad is None, cls.mod, fn, "%s [%s] %s" % (qn, label, bad), "a number is changed on reading (normalised, rounded, wrapped): what is read is not what was written", qualname=qn)
+
+
+def mutable_default_rule(repo, res, rels, RULE):
+    """no function of the given modules has a mutable default argument that it changes or hands out: such a default is
+    one object shared by all calls, so what one call collects is still there in the next (the second traffic sign read
+    carries the lanelets of the first)."""
+    MUT = {"append", "extend", "insert", "pop", "remove", "clear", "update", "setdefault", "sort", "reverse", "add", "discard", "popitem", "__setitem__"}
+    n = 0
+    for rel in rels:
+        m = repo.mod(rel)
+        for fn in [x for x in ast.walk(m.tree) if isinstance(x, (ast.FunctionDef, ast.AsyncFunctionDef))]:
+            a = fn.args
+            pos = a.posonlyargs + a.args
+            pairs = list(zip(pos[len(pos) - len(a.defaults):], a.defaults)) + [(p, d) for p, d in zip(a.kwonlyargs, a.kw_defaults) if d is not None]
+            n += 1
+            for prm, d in pairs:
+                mutable = isinstance(d, (ast.List, ast.Dict, ast.Set, ast.ListComp, ast.DictComp, ast.SetComp)) or (isinstance(d, ast.Call) and isinstance(d.func, ast.Name) and d.func.id in ("set", "list", "dict", "defaultdict", "OrderedDict", "deque", "bytearray"))
+                if not mutable:
+                    continue
+                bad = None
+                for x in ast.walk(fn):
+                    if isinstance(x, ast.Call) and isinstance(x.func, ast.Attribute) and isinstance(x.func.value, ast.Name) and x.func.value.id == prm.arg and x.func.attr in MUT:
+                        bad = x
+                    elif isinstance(x, (ast.Subscript, ast.Attribute)) and isinstance(x.ctx, (ast.Store, ast.Del)) and isinstance(x.value, ast.Name) and x.value.id == prm.arg:
+                        bad = x
+                    elif isinstance(x, ast.AugAssign) and isinstance(x.target, ast.Name) and x.target.id == prm.arg:
+                        bad = x
+                    elif isinstance(x, ast.Return) and isinstance(x.value, ast.Name) and x.value.id == prm.arg:
+                        bad = x
+                    if bad is not None:
+                        break
+                # a parameter rebound before use (x = x or []) no longer denotes the default
+                rebound = any(isinstance(x, ast.Name) and isinstance(x.ctx, ast.Store) and x.id == prm.arg for x in ast.walk(fn))
+                res.check(RULE, "%s: mutable default of %s is neither changed nor handed out" % (m.qualname(fn), prm.arg), bad is None or rebound, m, bad or fn, "%s changes / returns its default argument %s" % (m.qualname(fn), prm.arg), "the default is one object shared by all calls: what one call adds is still there in the next, so the objects read / written depend on what was read / written before", qualname=m.qualname(fn))
+    if n < 60:
+        raise AnalysisError("only %d functions examined for mutable defaults" % n)
+    res.ok(RULE, "%d functions of %s examined: no mutable default argument is changed or handed out" % (n, ", ".join(r.split("/")[-1] for r in rels)))
+
+
 def run(repo, res, tier):
+    res.rule("PB-LEAF", "leaf factories hand on the numbers of the message unchanged", 12)
+    res.rule("PB-STATE", "no mutable default argument is changed or handed out in reader / writer", 1)
+    leaf_rules(repo, res)
+    mutable_default_rule(repo, res, ["commonroad/common/reader/file_reader_protobuf.py", "commonroad/common/writer/file_writer_protobuf.py"], "PB-STATE")
     res.rule("PB-FIELD", "fields set / read exist in the message definition", 150)
     res.rule("PB-COVER", "every field of a written message is set by its builder", 80)
     res.rule("PB-READ", "every field a builder sets is read by the paired factory", 60)
